@@ -5,6 +5,7 @@ CONSTANTS
   QueriesPerReader = 2
   LockBeforeBump = TRUE
   DropSessions = TRUE
+  EarlyRelease = FALSE
   Emit = FALSE
 INVARIANT ReaderSeesSnap
 INVARIANT Exclusion
